@@ -13,20 +13,19 @@ theorem close_nstart {s s' : State} {nid t : Nat} {e : Bool} {v : Nat} (h : Clos
     split at hs <;> simp at hs <;> subst hs <;> close_close0
 
 set_option maxHeartbeats 8000000 in
-theorem close_nrun {s s' : State} {nid : Nat} (h : Close s) (hi : Inv s) (hs : stepNrun s nid = some s') : Close s' := by
+theorem close_nrun {cfg : Cfg} {s s' : State} {nid : Nat} (hg : cfg.std = true) (h : Close s) (hi : Inv s)
+    (hs : stepNrun cfg s nid = some s') : Close s' := by
   unfold stepNrun at hs
+  std_norm hg at hs
+  simp only [casStep] at hs
   split at hs
   · simp at hs
   · split at hs
-    · simp at hs; subst hs; close_close0
-    · split at hs
-      · simp at hs
-      · split at hs <;> simp at hs <;> subst hs <;> close_close0
-    · split at hs
-      · simp at hs
-      · split at hs <;> simp at hs <;> subst hs <;> close_close0
-    · simp at hs
-
+    all_goals (try (split at hs))
+    all_goals (try (split at hs))
+    all_goals (try (simp at hs))
+    all_goals (try subst hs)
+    all_goals close_close0
 set_option maxHeartbeats 4000000 in
 theorem close_nwrite {s s' : State} {nid : Nat} {o : Outcome} (h : Close s) (hi : Inv s)
     (hs : stepNwrite s nid o = some s') : Close s' := by
@@ -82,7 +81,7 @@ theorem close_step {cfg : Cfg} {s s' : State} {a : Action} (hg : cfg.std = true)
   · exact close_dret hg h hi hs
   · exact close_gpass hg h hi hs
   · exact close_nstart h hi hs
-  · exact close_nrun h hi hs
+  · exact close_nrun hg h hi hs
   · exact close_nwrite h hi hs
   · cases hs; exact close_ack hg h hi
   · exact close_cancel h hi hs
